@@ -230,7 +230,11 @@ func runC03(c *core.Ctx) {
 		if i%8 == 0 {
 			c03SharedBuffer(c, r)
 		}
-		d := genDataCase(r, anyData())
+		o := anyData()
+		if r.Chance(1, 8) {
+			o.maxFRM = 255 // the property's lengths 0..255 also through the PHYPayload methods
+		}
+		d := genDataCase(r, o)
 		key := key16(r)
 		up := d.Spec.Uplink()
 		afd := !up && d.Spec.FPort > 0
